@@ -1215,7 +1215,7 @@ class XsdGroup(XsdComponent, MutableSequence[ModelParticleType],
             reason = _("wrong content type {!r}").format(type(obj.content))
             context.validation_error(validation, self, reason, elem)
 
-        if not self.mixed and (text and text.strip() or cdata_between) and self and \
+        if not self.mixed and (text is not None and str(text).strip() or cdata_between) and self and \
                 (len(self) > 1 or not isinstance(self[0], XsdAnyElement)):
             reason = _("character data between child elements not allowed")
             context.validation_error(validation, self, reason, elem)
